@@ -67,13 +67,13 @@ def denote (s : Screen) : ViewExpr → List Bool
   | .sub e inner => scatter (denote s e) inner
   | .inv e => (denote s e).map (!·)
   | .comb a b => orSel (denote s a) (denote s b)
-  | .cat es => denoteCat s es
+  | .cat [] => []
+  | .cat (e :: es) => denoteFold s (denote s e) es
   | .uniq e => scatter (denote s e) (uniqueMask (uniqKeys s (denote s e)))
-/-- `concat` of a non-empty list is the union -/
-def denoteCat (s : Screen) : List ViewExpr → List Bool
-  | [] => []
-  | [e] => denote s e
-  | e :: es => orSel (denote s e) (denoteCat s es)
+/-- `concat` of a non-empty list is the union, accumulated left to right -/
+def denoteFold (s : Screen) (acc : List Bool) : List ViewExpr → List Bool
+  | [] => acc
+  | e :: es => denoteFold s (orSel acc (denote s e)) es
 end
 
 /-- per-experiment attributes of a view: the parent's arrays indexed by the selection vector -/
